@@ -89,9 +89,9 @@ theorem inv_rxMarker (hI : MInv w) {i : Nat} {p : List Nat} {idx : Nat}
   all_goals exact hI.step_same ht (CapLe.refl _) hR ⟨trivial, trivial⟩ (fun _ _ => Nat.le_refl _)
 
 /-- `claim_receiving`: `Sent → RxBusy` compare-exchange; on success this thread is the RX party. -/
-theorem inv_rxClaim (hI : MInv w) {k : Nat} {p : List Nat}
-    (ht : w.threads[tid]? = some ⟨prog, .rxClaim k p, regs, outs⟩) :
-    MInv (next w tid (stepThread w.sys ⟨prog, .rxClaim k p, regs, outs⟩)) := by
+theorem inv_rxClaim (hI : MInv w) {k : Nat} {p : List Nat} {idx : Nat}
+    (ht : w.threads[tid]? = some ⟨prog, .rxClaim k p idx, regs, outs⟩) :
+    MInv (next w tid (stepThread w.sys ⟨prog, .rxClaim k p idx, regs, outs⟩)) := by
   have hR : Regs regs := hI.regs _ (mem_of_get ht)
   simp only [stepThread]
   split
@@ -107,6 +107,39 @@ theorem inv_rxClaim (hI : MInv w) {k : Nat} {p : List Nat}
       simp only [tcount, pcount, Pc.claim] at h1 ⊢
       cases ρ <;> simp [cap, one] at h1 ⊢ <;> omega
   · exact hI.step_same ht (CapLe.refl _) hR ⟨trivial, trivial⟩ (fun _ _ => Nat.le_refl _)
+
+/-- The marker is re-checked while the frame is held: only a load; the RX claim is kept either way. -/
+theorem inv_rxVerify (hI : MInv w) {k : Nat} {p : List Nat} {idx : Nat}
+    (ht : w.threads[tid]? = some ⟨prog, .rxVerify k p idx, regs, outs⟩) :
+    MInv (next w tid (stepThread w.sys ⟨prog, .rxVerify k p idx, regs, outs⟩)) := by
+  have hR : Regs regs := hI.regs _ (mem_of_get ht)
+  simp only [stepThread]
+  split
+  all_goals exact hI.step_same ht (CapLe.refl _) hR ⟨trivial, trivial⟩ (fun _ _ => Nat.le_refl _)
+
+/-- The hand-back: `RxBusy → Sent` compare-exchange by the RX party, which then leaves. The slot is
+    `Sent` again with its awaiting future and no RX claim. -/
+theorem inv_rxUnclaim (hI : MInv w) {k : Nat}
+    (ht : w.threads[tid]? = some ⟨prog, .rxUnclaim k, regs, outs⟩) :
+    MInv (next w tid (stepThread w.sys ⟨prog, .rxUnclaim k, regs, outs⟩)) := by
+  have hR : Regs regs := hI.regs _ (mem_of_get ht)
+  by_cases hst : (w.sys.slot k).st = .rxBusy
+  · simp only [stepThread, if_pos hst]
+    have hlt : k < w.sys.n := st_ne_none_lt (by rw [hst]; simp)
+    refine hI.step_set ht k _ hlt hR ⟨trivial, trivial⟩ ?_ ?_
+    · intro k' ρ hne
+      simp only [tcount, pcount, Pc.claim, Thread.done]
+      omega
+    · intro rest h0 _ ρ
+      have h1 := h0 ρ
+      rw [hst] at h1
+      simp only [tcount, pcount, Pc.claim, Thread.done] at h1 ⊢
+      cases ρ <;> simp [cap, one] at h1 ⊢ <;> omega
+  · simp only [stepThread, if_neg hst]
+    refine hI.step_same ht (CapLe.refl _) hR ⟨trivial, trivial⟩ ?_
+    intro k' ρ
+    simp only [tcount, pcount, Pc.claim, Thread.done]
+    omega
 
 /-- The copy into the buffer; or RX gives up (payload too long): its claim disappears, the status
     stays `RxBusy`. -/
